@@ -96,6 +96,7 @@ type bprover struct {
 	callVers map[*ssa.Call]*memVersion
 	cell     ssa.Value // the versioned pointer parameter
 	halfOf   map[string]lin
+	maxes    map[string][2]lin // max(a, b) atoms: their two operands
 	assume   []string
 	depth    int
 }
@@ -240,6 +241,9 @@ func (p *bprover) lenOf(v ssa.Value, at *ssa.BasicBlock) lin {
 	defer func() { p.depth-- }()
 	if p.depth > 40 {
 		return atomLin("len(" + p.id(v) + ")")
+	}
+	if n, isArr := arrayLen(v.Type()); isArr {
+		return konst(n)
 	}
 	switch x := v.(type) {
 	case *ssa.Slice:
@@ -404,6 +408,9 @@ func (p *bprover) val(v ssa.Value, at *ssa.BasicBlock) lin {
 		if calleeName(x) == "builtin min" && len(x.Call.Args) == 2 {
 			a := "min(" + p.id(x) + ")"
 			return atomLin(a)
+		}
+		if calleeName(x) == "builtin max" && len(x.Call.Args) == 2 {
+			return atomLin("max(" + p.id(x) + ")")
 		}
 	case *ssa.Convert:
 		if !isIntType(x.Type()) || !isIntType(x.X.Type()) {
@@ -698,6 +705,29 @@ func (p *bprover) prove(goal lin, facts []fact, depth int) bool {
 	if goal.isConst() {
 		return goal.c >= 0
 	}
+	if p.proveLinear(goal, facts, depth) {
+		return true
+	}
+	// max(a, b) is one of a and b: the goal holds if it holds with either in its place
+	if depth < 3 {
+		for atom, k := range goal.t {
+			ab, isMax := p.maxes[atom]
+			if !isMax || k == 0 {
+				continue
+			}
+			rest := goal.sub(atomLin(atom).scale(k))
+			if p.prove(rest.add(ab[0].scale(k)), facts, depth+1) && p.prove(rest.add(ab[1].scale(k)), facts, depth+1) {
+				return true
+			}
+		}
+	}
+	return false
+}
+
+func (p *bprover) proveLinear(goal lin, facts []fact, depth int) bool {
+	if goal.isConst() {
+		return goal.c >= 0
+	}
 	all := append(append([]fact{}, facts...), p.axiomFacts(goal, facts)...)
 	// keep only facts sharing an atom with the goal closure (2 rounds)
 	rel := map[string]bool{}
@@ -808,6 +838,16 @@ func (p *bprover) phiInvariants() {
 		if call, ok := v.(*ssa.Call); ok && calleeName(call) == "builtin min" && len(call.Call.Args) == 2 {
 			m := atomLin("min(" + p.id(call) + ")")
 			p.global = append(p.global, fact{p.val(call.Call.Args[0], in.Block()).sub(m), "min <= a"}, fact{p.val(call.Call.Args[1], in.Block()).sub(m), "min <= b"})
+		}
+		if call, ok := v.(*ssa.Call); ok && calleeName(call) == "builtin max" && len(call.Call.Args) == 2 {
+			name := "max(" + p.id(call) + ")"
+			m := atomLin(name)
+			a, b := p.val(call.Call.Args[0], in.Block()), p.val(call.Call.Args[1], in.Block())
+			p.global = append(p.global, fact{m.sub(a), "max >= a"}, fact{m.sub(b), "max >= b"})
+			if p.maxes == nil {
+				p.maxes = map[string][2]lin{}
+			}
+			p.maxes[name] = [2]lin{a, b}
 		}
 	})
 	for _, par := range p.fn.Params {
@@ -927,8 +967,24 @@ func isByteSeq(t types.Type) bool {
 		return u.Info()&types.IsString != 0
 	case *types.Pointer:
 		return isByteSeq(u.Elem())
+	case *types.Array: // a fixed buffer (`var word [8]byte; word[8-len(b):]`)
+		b, ok := u.Elem().Underlying().(*types.Basic)
+		return ok && (b.Kind() == types.Byte || b.Kind() == types.Uint8)
 	}
 	return false
+}
+
+// arrayLen: the length of an array value or of the array a pointer points to
+func arrayLen(t types.Type) (int64, bool) {
+	switch u := t.Underlying().(type) {
+	case *types.Array:
+		return u.Len(), true
+	case *types.Pointer:
+		if a, ok := u.Elem().Underlying().(*types.Array); ok {
+			return a.Len(), true
+		}
+	}
+	return 0, false
 }
 
 // proveWithMemPhi proves goal >= 0 at block b, case-splitting when the operand slice is a memory phi.
